@@ -197,6 +197,9 @@ class TermEval:
         outs: list[tuple[Term | None, Store]] = []
         for r, st in ex.returns:
             if r.value is not None:
+                if isinstance(r.value, ast.Call) and st.get("$ret") is not None:
+                    outs.append((st.get("$ret"), Store({k: v for k, v in st.d.items() if k != "$ret"})))  # call already evaluated (with its effects) by on_stmt
+                    continue
                 v, st2 = self._ev_effect(r.value, st)
                 outs.append((v, st2))
             else:
